@@ -106,6 +106,30 @@ def sprinkle(rng, m, ops):
     return out
 
 
+def history(rng, n, c, late_restore=False):
+    """n optimizer steps with the option-change pattern c in between; a two-call 'changed-and-restored' pattern is split: the
+    restoring call comes at a later point (steps / forward passes run under the other value in between), with late_restore right
+    before the checkpoint"""
+    first, second = (c[1][:1], c[1][1:]) if c[0].endswith('-and-back') else (c[1], [])
+    pos = rng.randint(0, n) if not late_restore else rng.randint(0, min(1, n))
+    pos2 = n if (late_restore or rng.random() < 0.4) else rng.randint(pos, n)
+    kind = rng.choice(['sgd', 'adam'])
+    ops = []
+    for i in range(n):
+        if i == pos:
+            ops += first
+        if i == pos2:
+            ops += second
+        ops.append(('step', kind))
+        if rng.random() < 0.15:
+            ops.append(('fwd',))
+    if pos == n:
+        ops += first
+    if pos2 == n:
+        ops += second
+    return ops
+
+
 def gen_cases(ctx):
     rng = ctx.rng
     V = variants(ctx.quick)
@@ -128,20 +152,24 @@ def gen_cases(ctx):
             st = rng.random() < 0.7                    # mode of the seed network handed to the constructor
             r0 = rng.random()
             ops = [] if r0 < 0.2 else [('train',)] if r0 < 0.85 else [('eval',)]     # 20%: the run never calls train()/eval() first
-            pos = rng.randint(0, n)
-            kind = rng.choice(['sgd', 'adam'])
-            for i in range(n):
-                if i == pos:
-                    ops += c[1]
-                ops.append(('step', kind))
-                if rng.random() < 0.15:
-                    ops.append(('fwd',))
-            if pos == n:
-                ops += c[1]
+            ops += history(rng, n, c)
             if fm == 'eval' or rng.random() < 0.3:
                 ops.append((fm,))
             ops = sprinkle(rng, v['method'], ops)
             cases.append({'cfg': dict(v, opts=dict(v['opts'], seed_training=st, names=rng.choice([0, 1, 1, 2])), seed=rng.randint(0, 3)), 'ops': ops, 'kind': '%s:%s:steps%d:%s' % (v['method'], c[0], n, fm), 'vi': vi})
+    # every changed-and-restored pattern of every configuration once more, with the restoring call right before the checkpoint:
+    # whatever was computed under the other value (coefficient buffers, statistics) must come back through the state_dict
+    for vi, v in enumerate(V):
+        for c in option_changes(v):
+            if not c[0].endswith('-and-back'):
+                continue
+            for rep in range(1 if ctx.quick else 4):
+                n = rng.randint(2, 4)
+                fm = rng.choice(['train', 'eval'])
+                ops = [('train',)] + history(rng, n, c, late_restore=True) + ([(fm,)] if rng.random() < 0.5 else [])
+                ops = sprinkle(rng, v['method'], ops) if rng.random() < 0.5 else ops
+                cases.append({'cfg': dict(v, opts=dict(v['opts'], seed_training=rng.random() < 0.7, names=rng.choice([0, 1, 2])), seed=rng.randint(0, 3)),
+                              'ops': ops, 'kind': '%s:%s-late:steps%d:%s' % (v['method'], c[0], n, fm), 'vi': vi})
     # random histories
     nrand = 30 if ctx.quick else 300
     for i in range(nrand):
